@@ -693,3 +693,123 @@ def check_forward_collisions(ctx, repo: Repo, pid: str, module_names: List[str],
     if not bad:
         ctx.ok("FWDCOLLIDE", f"{pid}.fwdcollide", f"no lazily created attribute of a forwarding class ({seen} lookups) collides with an attribute of its "
                "delegate (positive control matched)", ", ".join(module_names)[:160])
+
+
+# ---------------------------------------------------------------------------------------------------------------- LAZYINIT
+LZ_CONTROL = '''
+class P:
+    def __init__(self):
+        self.cells = None
+        self.eager = None
+        self._fill_eager()
+    def _fill_eager(self):
+        self.eager = [1]
+    def _build(self):
+        return [1, 2]
+    def volumes(self):
+        if self.cells is None:
+            self.cells = self._build()
+        return self.cells[0]
+    def borders(self):
+        return self.cells[1]
+    def safe(self):
+        self.volumes()
+        return self.cells[1] + self.eager[0]
+'''
+
+
+def _lazy_attrs(trees):
+    """-> (number of lazily filled attributes examined, [(where, relpath, text, message)])"""
+    seen, bad = 0, []
+    for rel, tree in trees:
+        for cls in [n for n in ast.walk(tree) if isinstance(n, ast.ClassDef)]:
+            methods = {m.name: m for m in cls.body if isinstance(m, (ast.FunctionDef, ast.AsyncFunctionDef))}
+            init = methods.get("__init__")
+            if init is None:
+                continue
+
+            def self_attr(t):
+                return t.attr if isinstance(t, ast.Attribute) and isinstance(t.value, ast.Name) and t.value.id == "self" else None
+            none_init = set()
+            nonnone_init = set()
+            for n in ast.walk(init):
+                if isinstance(n, ast.Assign):
+                    for t in n.targets:
+                        a = self_attr(t)
+                        if a is not None:
+                            (none_init if isinstance(n.value, ast.Constant) and n.value.value is None else nonnone_init).add(a)
+            cands = none_init - nonnone_init
+            if not cands:
+                continue
+            calls = {name: {c.func.attr for c in ast.walk(m) if isinstance(c, ast.Call) and isinstance(c.func, ast.Attribute) and
+                            isinstance(c.func.value, ast.Name) and c.func.value.id == "self"} for name, m in methods.items()}
+            reach = {"__init__"}
+            grow = True
+            while grow:
+                grow = False
+                for r in list(reach):
+                    for c in calls.get(r, ()):
+                        if c in methods and c not in reach:
+                            reach.add(c)
+                            grow = True
+            for attr in sorted(cands):
+                fillers = {name for name, m in methods.items() if name != "__init__" and any(
+                    isinstance(n, ast.Assign) and any(self_attr(t) == attr for t in n.targets) and
+                    not (isinstance(n.value, ast.Constant) and n.value.value is None) for n in ast.walk(m))}
+                if not fillers or fillers & reach:
+                    continue            # never filled here (a subclass / the caller does) or filled during construction
+                # attributes that other code of the module assigns from outside (obj.attr = ...) are not judged
+                if any(isinstance(n, ast.Assign) and any(isinstance(t, ast.Attribute) and t.attr == attr and not
+                                                         (isinstance(t.value, ast.Name) and t.value.id == "self") for t in n.targets)
+                       for n in ast.walk(tree)):
+                    continue
+                # construct-then-fill protocol: a factory (or any other code) calls the filler on an object it has just built
+                if any(isinstance(c, ast.Call) and isinstance(c.func, ast.Attribute) and c.func.attr in fillers and
+                       not (isinstance(c.func.value, ast.Name) and c.func.value.id == "self") for _, t2 in trees for c in ast.walk(t2)):
+                    continue
+                seen += 1
+                ensurers = set(fillers)
+                grow = True
+                while grow:
+                    grow = False
+                    for name in methods:
+                        if name not in ensurers and calls.get(name, set()) & ensurers:
+                            # a method that always calls a filler first ensures as well (flow-insensitive: it calls one somewhere)
+                            ensurers.add(name)
+                            grow = True
+                for name, m in methods.items():
+                    if name in ensurers or name == "__init__" or name in reach:
+                        continue
+                    tests_none = any(isinstance(c, ast.Compare) and self_attr(c.left) == attr and any(isinstance(x, ast.Constant) and x.value is None
+                                                                                                     for x in c.comparators) for c in ast.walk(m))
+                    if tests_none:
+                        continue
+                    deref = [n for n in ast.walk(m) if (isinstance(n, ast.Attribute) and self_attr(n.value) == attr) or
+                             (isinstance(n, ast.Subscript) and self_attr(n.value) == attr)]
+                    if deref:
+                        bad.append((f"{rel}:{cls.name}.{name}", rel, ast.unparse(deref[0])[:100],
+                                    f"self.{attr} is None after construction and is only created by {sorted(fillers)}; {name} uses it without "
+                                    "creating it or calling one of them"))
+    return seen, bad
+
+
+def check_lazy_attrs(ctx, repo: Repo, pid: str, module_names: List[str], report_modules=None):
+    """LAZYINIT (typestate): an attribute that the constructor leaves at None and that one method creates on first use must not be
+    dereferenced by a sibling method that neither creates it nor calls a method that does: whether the sibling works then depends on
+    which getter was called before (AttributeError on None for one order of requests, the right value for the other)."""
+    s_, b_ = _lazy_attrs([("<control>", ast.parse(LZ_CONTROL))])
+    if s_ != 1 or len(b_) != 1 or "borders" not in b_[0][0]:
+        ctx.inconclusive("LAZYINIT", f"{pid}.lazyinit.control", "positive control of the lazy-attribute rule did not match", "<control>", witness=str((s_, b_)))
+        return
+    trees = [(repo.module(mn).relpath, repo.module(mn).tree) for mn in module_names]
+    seen, bad = _lazy_attrs(trees)
+    rep = {repo.module(m).relpath for m in (report_modules or module_names) if m in repo.modules}
+    bad = [b for b in bad if b[1] in rep]
+    ctx.instance("LAZYINIT", seen + 1)
+    for where, rel, text, msg in bad:
+        ctx.violate("LAZYINIT", f"{pid}.lazyinit", "an attribute that is created on first use by one method is used by another method that does "
+                    "not create it: the second method fails (None has no such attribute) unless the first one happened to run before, so the "
+                    "outcome of a request depends on the order of requests", where, text, witness=msg)
+    if not bad:
+        ctx.ok("LAZYINIT", f"{pid}.lazyinit", f"{seen} lazily created attribute(s): every method that uses one creates it first or calls a method "
+               "that does (positive control matched)", ", ".join(module_names)[:160])
